@@ -66,13 +66,14 @@ vars == <<iface, changed, cur, live, shots, vg, last, handed>>
 (* Configuration classes.  Concrete representatives are chosen by the harness *)
 (* (harness/g4_replay.cc): nuclide "pub" = a published name (Co60 / Mo100),   *)
 (* "pubp" / "puba" = names published as background only whose decays contain  *)
-(* positrons / alphas (Na22, Am241; as double-beta requests they are names    *)
+(* positrons / alphas (Na22, Am241; "pubz": Kr81 with a seed whose first decay *)
+(* contains a zero-momentum X-ray; as double-beta requests they are names     *)
 (* of the wrong catalogue), "unpub" = a name the library's dispatcher accepts *)
 (* but the catalogue does not publish, "unk" = a name nobody knows,           *)
 (* "empty" = "".                                                              *)
 Cats   == {"bkg", "dbd", "bad", "none"}      \* "background", "dbd", any other string, "" (reset value)
-Nucs   == {"pub", "pubp", "puba", "unpub", "unk", "empty"}
-BkgPublished == {"pub", "pubp", "puba"}
+Nucs   == {"pub", "pubp", "puba", "pubz", "unpub", "unk", "empty"}
+BkgPublished == {"pub", "pubp", "puba", "pubz"}
 Seeds  == {"s1", "s2", "zero", "neg", "dflt"} \* two positive seeds, 0, a negative one, the reset value (1)
 Modes  == {0, 1, 4, 7, 20, 25}                \* 0 = undefined, 25 = beyond the last mode
 Levels == {-1, 0, 1, 9}
